@@ -772,8 +772,9 @@ def rule_skip_none(ctx):
                         dd.add(ok('SKIP-NONE', inst, 'attached iff option && outermost qualifier nullable (checked on %d qualifier lists × 2)' % len(lists), loc))
                 except Q.Undecided as ex:
                     dd.add(undecided('SKIP-NONE', inst, 'guard predicate not evaluable: %s' % ex, loc))
-    if sites < 3:
-        dd.add(bad('SKIP-NONE', 'floor', 'anchor-missing: expected 3 skip_serializing_if productions (variables, input fields, response fields), found %d' % sites))
+    roles_ = {k.split('[')[-1] for k in dd.obs}
+    if not any('ResolvedVariable' in r for r in roles_) or not any('StoredInputType' in r for r in roles_):
+        dd.add(bad('SKIP-NONE', 'floor', 'anchor-missing: expected skip_serializing_if productions for variables and input fields, found %s' % sorted(roles_)))
     return dd.list()
 
 
@@ -1064,8 +1065,37 @@ def rule_types_grammar(ctx):
     else:
         # the mapping fn is the one with most templates; others are second mapping rules
         main = max(fns, key=lambda k: len(fns[k]))
+        # a mapping fn may delegate steps to private helpers: a fn all of whose callers belong to the family is part of
+        # the same rule (and so is the single caller of the main fn)
+        from .rules_hir import callgraph
+        cg_ = callgraph(ctx)
+        key_of = {}
+        for tree in trees:
+            for seq in _flat_seqs(tree):
+                for el in seq:
+                    if el['t'] == 'tok' and el.get('site') is not None:
+                        f_ = ctx.site_fn(el['site'])
+                        key_of[short(f_.path)] = f_.key
+        callers = {}
+        for a_, bs_ in cg_.edges.items():
+            for b_ in bs_:
+                callers.setdefault(b_, set()).add(a_)
+        family = {key_of.get(main)}
+        changed = True
+        while changed:
+            changed = False
+            for f in fns:
+                k_ = key_of.get(f)
+                if k_ in family or k_ is None:
+                    continue
+                cs_ = callers.get(k_, set()) - {k_}
+                if (cs_ and cs_ <= family) or any((callers.get(m_, set()) - {m_}) == {k_} for m_ in family):
+                    family.add(k_)
+                    changed = True
+        if all(key_of.get(f) in family for f in fns):
+            dd.add(ok('TYPES-1', 'single-mapping', 'all Option<>/Vec<> wrappers are emitted by `%s` and its private step helpers %s' % (main, sorted(f for f in fns if f != main))))
         for f, sites in fns.items():
-            if f != main:
+            if f != main and key_of.get(f) not in family:
                 dd.add(bad('TYPES-1', 'second-mapping/' + f, 'Option<>/Vec<> wrapper emitted outside the single mapping fn `%s`' % main,
                            ctx.site_loc(next(iter(sites))), 'a type position maps GraphQL modifiers by a different rule'))
     # TYPES-5
